@@ -811,8 +811,9 @@ theorem runHist_sim {o : BackendOps D B} {abs : B → Rows D} {Inv : B → Prop}
       exact ih s' a' hsim
 
 /-- the initial system: a fresh engine and `Program(n)` -/
-theorem init_sim {o : BackendOps D B} {abs : B → Rows D} {Inv : B → Prop} (R : Refines o abs Inv) {n : Nat}
-    {s : Sys B} (h : Sys.init o n = .ok s) : Sim o abs Inv s (List.replicate n (some DataSem.vac)) := by
+theorem init_sim {o : BackendOps D B} {abs : B → Rows D} {Inv : B → Prop} (hbi : ∀ n, Inv (o.begin n))
+    (hba : ∀ n, abs (o.begin n) = List.replicate n (some DataSem.vac)) {n : Nat}
+    {s : Sys B} (h : Sys.init o n = .ok s) : Sim o abs Inv s (List.replicate n (some DataSem.vac)) ∧ s.prev = none := by
   unfold Sys.init at h
   split at h
   · cases h
@@ -820,7 +821,7 @@ theorem init_sim {o : BackendOps D B} {abs : B → Rows D} {Inv : B → Prop} (R
     cases h
     obtain ⟨hl, hc, hin, hir, _⟩ := fresh_spec hp
     obtain ⟨hpi, _, hfl⟩ := fresh_progInv hp
-    refine ⟨hpi, hl, ?_, R.begin_inv _, ?_, ?_⟩
+    refine ⟨⟨hpi, hl, ?_, hbi _, ?_, ?_⟩, rfl⟩
     · simp only
       rw [hir, List.all_eq_true]
       intro r hr
@@ -828,8 +829,69 @@ theorem init_sim {o : BackendOps D B} {abs : B → Rows D} {Inv : B → Prop} (R
       have : p.regRefs.map (·.active) = List.replicate n true := hfl
       rw [this] at hm
       exact (List.mem_replicate.1 hm).2
-    · simp only [baseBe, hc, Rows.run, R.begin_abs, hin]
+    · simp only [baseBe, hc, Rows.run, hba, hin]
     · rw [hfl]; simp
+
+/-- events that only build the program -/
+def Ev.isProg : Ev → Bool
+  | .new _ | .del _ | .use _ _ _ | .meas _ => true
+  | _ => false
+
+/-- program-building events are simulated on any back end (nothing is executed yet) -/
+theorem step_sim_prog {o : BackendOps D B} {abs : B → Rows D} {Inv : B → Prop} {s : Sys B}
+    {a : Rows D} (h : Sim o abs Inv s a) (ev : Ev) (hev : ev.isProg = true) :
+    match aStep a ev with
+    | some a' => ∃ s', step o s ev = .ok s' ∧ Sim o abs Inv s' a' ∧ s'.prev = s.prev
+    | none => ∃ e, step o s ev = .error e := by
+  have key : ∀ s', step o s ev = .ok s' → s'.prev = s.prev := by
+    intro s' hs
+    cases ev with
+    | new n => simp only [step] at hs; split at hs <;> cases hs; rfl
+    | del ms => simp only [step] at hs; split at hs <;> cases hs; rfl
+    | use ms k deps => simp only [step] at hs; split at hs <;> cases hs; rfl
+    | meas ms => simp only [step] at hs; split at hs <;> cases hs; rfl
+    | endProg => cases hev
+    | reset n => cases hev
+  have main : match aStep a ev with
+      | some a' => ∃ s', step o s ev = .ok s' ∧ Sim o abs Inv s' a'
+      | none => ∃ e, step o s ev = .error e := by
+    cases ev with
+    | new n => exact step_new h n
+    | del ms => exact step_del h ms
+    | use ms k deps => exact step_use h ms k deps
+    | meas ms => exact step_meas h ms
+    | endProg => cases hev
+    | reset n => cases hev
+  cases ha : aStep a ev with
+  | none => simp only [ha] at main ⊢; exact main
+  | some a' =>
+    simp only [ha] at main ⊢
+    obtain ⟨s', h1, h2⟩ := main
+    exact ⟨s', h1, h2, key s' h1⟩
+
+theorem runHist_sim_prog {o : BackendOps D B} {abs : B → Rows D} {Inv : B → Prop} :
+    ∀ (es : List Ev) (s : Sys B) (a : Rows D), es.all Ev.isProg = true → Sim o abs Inv s a →
+    Sim o abs Inv (runHist o s es) (aRunHist a es) ∧ (runHist o s es).prev = s.prev := by
+  intro es
+  induction es with
+  | nil => intro s a _ h; exact ⟨h, rfl⟩
+  | cons e es ih =>
+    intro s a hall h
+    simp only [List.all_cons, Bool.and_eq_true] at hall
+    have := step_sim_prog h e hall.1
+    unfold runHist aRunHist
+    cases ha : aStep a e with
+    | none =>
+      simp only [ha] at this
+      obtain ⟨err, he⟩ := this
+      simp only [he]
+      exact ih s a hall.2 h
+    | some a' =>
+      simp only [ha] at this
+      obtain ⟨s', hs, hsim, hprev⟩ := this
+      simp only [hs]
+      obtain ⟨h1, h2⟩ := ih s' a' hall.2 hsim
+      exact ⟨h1, by rw [h2, hprev]⟩
 
 /-! observations under `Sim` -/
 
